@@ -3,12 +3,13 @@
 From Coq Require Import Extraction ExtrOcamlBasic.
 From Coq Require Import List ZArith QArith Qcanon.
 From Inovesa Require Import Base.FieldKit Base.Float32 Gen.Gen_Coeffs Gen.Gen_StepOrder Gen.Gen_WakeScale
-  Model.Kick Model.StepKinds Model.Haiss.
+  Model.Kick Model.StepKinds Model.RunKinds Gen.Gen_WakeUpdate Gen.Gen_Identity Gen.Gen_KickIndex Model.Copy
+  Model.WakeUpdate Model.Haiss.
 
 Extraction Language OCaml.
 
 Definition wake_scalingQ (ib dt c sz de sd e0 nm : Qc) : Qc := wake_scaling (K:=QcF) ib dt c sz de sd e0 nm.
 
 Extraction "model_haiss.ml"
-  Q2Qc this step_order step_grids wake_offsets_list rf_offsets_list predicted_list moments_list
-  table_list wake_scalingQ.
+  Q2Qc this step_order step_grids wake_offsets_list rf_offsets_list wake_table_idx_list rf_table_idx_list
+  predicted_list moments_list wake_scalingQ.
